@@ -268,6 +268,56 @@ example : applyBin .align 0x1237 16 = some 0x1230 := by decide
 example : applyBin .align 0x1237 24 = none := by decide
 
 
+/-! ## 4. which rules apply at a lookup address
+  "rules at or below the address are applied in address order with later ones overriding";
+  walker.rs: "To get the final rules for a given address, start with its STACK CFI INIT and then
+  apply all the applicable STACK CFI diffs in order." -/
+
+/-- **C06.4 (`rules_override`, selection part)** For a record `r` and module-relative address `a`,
+    the lines handed to the evaluator are the INIT rules followed by **exactly** the delta records
+    whose address is `≤ a` (every one of them; none with a larger address), in the order of the
+    parser's sort — non-decreasing address (ties by rule text) — which is a permutation of the
+    deltas as written in the file. -/
+theorem rules_override (r : CfiRec) (a : Nat) :
+    linesAt r a = r.init :: ((sortAdds r.adds).filter (fun d => decide (d.1 ≤ a))).map (·.2) ∧
+    (∀ d, d ∈ (sortAdds r.adds).filter (fun d => decide (d.1 ≤ a)) ↔ d ∈ r.adds ∧ d.1 ≤ a) ∧
+    (sortAdds r.adds).Pairwise (fun x y => x.1 ≤ y.1) ∧
+    (sortAdds r.adds).Perm r.adds := by
+  have hsorted : (sortAdds r.adds).Pairwise (fun x y => ruleLe x y = true) :=
+    sortBy_pairwise ruleLe ruleLe_total ruleLe_trans _
+  have haddr : (sortAdds r.adds).Pairwise (fun x y => x.1 ≤ y.1) :=
+    hsorted.imp (fun h => ruleLe_addr _ _ h)
+  have hperm : (sortAdds r.adds).Perm r.adds := sortBy_perm _ _
+  refine ⟨?_, ?_, haddr, hperm⟩
+  · unfold linesAt selectAdds
+    rw [takeWhile_eq_filter_of_sorted _ a haddr]
+  · intro d
+    simp only [List.mem_filter, decide_eq_true_eq, hperm.mem_iff]
+
+/-- deltas above the lookup address are ignored: removing them changes nothing -/
+theorem deltas_above_ignored (r : CfiRec) (a : Nat) (extra : List (Nat × Bytes))
+    (h : ∀ d ∈ extra, a < d.1) :
+    (linesAt { r with adds := r.adds ++ extra } a).length = (linesAt r a).length ∧
+    ∀ l, l ∈ linesAt { r with adds := r.adds ++ extra } a ↔ l ∈ linesAt r a := by
+  have h1 := (rules_override { r with adds := r.adds ++ extra } a)
+  have h2 := (rules_override r a)
+  have hp : ((sortAdds (r.adds ++ extra)).filter (fun d => decide (d.1 ≤ a))).Perm
+      ((sortAdds r.adds).filter (fun d => decide (d.1 ≤ a))) := by
+    have e : (r.adds ++ extra).filter (fun d => decide (d.1 ≤ a)) = r.adds.filter (fun d => decide (d.1 ≤ a)) := by
+      rw [List.filter_append]
+      have : extra.filter (fun d => decide (d.1 ≤ a)) = [] := by
+        rw [List.filter_eq_nil_iff]; intro d hd; have := h d hd; simp; omega
+      rw [this, List.append_nil]
+    exact ((h1.2.2.2.filter _).trans (e ▸ List.Perm.refl _)).trans (h2.2.2.2.filter _).symm
+  rw [h1.1, h2.1]
+  constructor
+  · simp only [List.length_cons, List.length_map]; rw [hp.length_eq]
+  · intro l
+    simp only [List.mem_cons]
+    rw [(hp.map (·.2)).mem_iff]
+
+example : linesAt ⟨0x10, 0x10, [1], [(0x12, [3]), (0x11, [2]), (0x13, [4])]⟩ 0x12 = [[1], [2], [3]] := by decide
+
 /-! ## 5. `walk_with_stack_cfi`: CFA first and not from itself, return address mandatory -/
 
 /-- What a successful walk consists of: the lines parse into a rule map that has a `.cfa` and a
